@@ -26,6 +26,7 @@ type vfPacketConn struct {
 	writes   int
 	failFrom int
 	closed   bool
+	before   func(packet int) // runs before packet i is handed to the server (the harness as scheduler)
 }
 
 func (c *vfPacketConn) Read(b []byte) (int, error) {
@@ -33,6 +34,9 @@ func (c *vfPacketConn) Read(b []byte) (int, error) {
 		return 0, io.EOF
 	}
 	p := c.packets[c.next]
+	if c.before != nil {
+		c.before(c.next)
+	}
 	n := copy(b, p)
 	if n < len(p) {
 		c.packets[c.next] = p[n:]
@@ -131,5 +135,53 @@ func vfH_C18_handle() {
 	vfAssert(held(key2) <= wills2, "C18: a will command ran that was never registered")
 	vfAssert(conn.closed, "C18: the connection was not closed")
 	vfAssert(len(env.slock.protocolSessions) == sessions0, "C18: the ended connection's protocol session is still in the server's session table")
+	vfReach("end")
+}
+
+// C18_promoted: the same through the forwarding wrappers.  The node is a follower when the client
+// connects (Server.handle wraps the connection in TransparencyBinaryServerProtocol /
+// TransparencyTextServerProtocol) and answers a PING; before the client's second packet the node is
+// promoted to leader; the second packet registers a will; the client goes away.  The node is the leader
+// now: the will has to run here, exactly once.
+func init() { vfHarnesses["C18_promoted"] = vfH_C18_promoted }
+
+func vfH_C18_promoted() {
+	env := vfNewEnv(0)
+	vfSetDBTime(env.db, vfBaseTime)
+	server := NewServer(env.slock)
+	text := vfChoice("text", 2) == 1
+	env.slock.state = STATE_FOLLOWER
+	env.db.status = STATE_FOLLOWER
+	conn := &vfPacketConn{failFrom: 1000}
+	var key [16]byte
+	if text {
+		parser := protocol.NewTextParser(make([]byte, 64), make([]byte, 64))
+		protocol.NewTextCommandConverter().ConvertArgId2LockId("k", &key)
+		conn.packets = append(conn.packets, parser.BuildRequest([]string{"PING"}))
+		conn.packets = append(conn.packets, parser.BuildRequest([]string{"LOCK", "k", "WILL", "1"}))
+	} else {
+		key = vfKey(1)
+		b := make([]byte, 64)
+		_ = (&protocol.PingCommand{Command: protocol.Command{Magic: protocol.MAGIC, Version: protocol.VERSION, CommandType: protocol.COMMAND_PING, RequestId: env.reqId()}}).Encode(b)
+		conn.packets = append(conn.packets, b)
+		c := env.newCmd(protocol.COMMAND_WILL_LOCK, key, vfLockId(1))
+		c.Expried, c.ExpriedFlag = 100, 0x0200
+		w := make([]byte, 64)
+		_ = c.Encode(w)
+		conn.packets = append(conn.packets, w)
+	}
+	conn.before = func(i int) {
+		if i == 1 {
+			env.slock.state = STATE_LEADER
+			env.db.status = STATE_LEADER
+			vfReach("promoted")
+		}
+	}
+	stream := NewStream(conn)
+	_ = server.addStream(stream)
+	server.handle(stream)
+	m := env.manager(key)
+	vfAssert(m != nil && len(vfHolders(m)) == 1, "C18: a will registered on a connection opened while the node was a follower did not run exactly once after the node was promoted and the connection ended")
+	vfAssert(conn.closed, "C18: the connection was not closed")
 	vfReach("end")
 }
